@@ -211,6 +211,13 @@ type XForm3 struct {
 	Rigid bool
 }
 
+// rtv is the minimal rotation taking direction a to direction b (independent of sdf.RotateToVector).
+func rtv(a, b v3.Vec) m4 {
+	c := v3.Vec{X: a.Y*b.Z - a.Z*b.Y, Y: a.Z*b.X - a.X*b.Z, Z: a.X*b.Y - a.Y*b.X}
+	ang := math.Atan2(math.Sqrt(c.X*c.X+c.Y*c.Y+c.Z*c.Z), a.X*b.X+a.Y*b.Y+a.Z*b.Z)
+	return rot4(c, ang)
+}
+
 func XForms3() []XForm3 {
 	d := sdf.DtoR
 	ax := v3.Vec{X: 1, Y: 1, Z: 1}
@@ -218,14 +225,6 @@ func XForms3() []XForm3 {
 	ax3 := v3.Vec{X: 0, Y: 1, Z: 1}
 	swap := ident4()
 	swap[0][0], swap[0][1], swap[1][0], swap[1][1] = 0, 1, 1, 0
-	rtv := func(a, b v3.Vec) m4 { // minimal rotation taking a to b
-		c := v3.Vec{X: a.Y*b.Z - a.Z*b.Y, Y: a.Z*b.X - a.X*b.Z, Z: a.X*b.Y - a.Y*b.X}
-		la, lb := math.Sqrt(a.X*a.X+a.Y*a.Y+a.Z*a.Z), math.Sqrt(b.X*b.X+b.Y*b.Y+b.Z*b.Z)
-		ang := math.Atan2(math.Sqrt(c.X*c.X+c.Y*c.Y+c.Z*c.Z), a.X*b.X+a.Y*b.Y+a.Z*b.Z)
-		_ = la
-		_ = lb
-		return rot4(c, ang)
-	}
 	return []XForm3{
 		{"Translate(3,-2,1)", func() sdf.M44 { return sdf.Translate3d(v3.Vec{X: 3, Y: -2, Z: 1}) }, trans4(v3.Vec{X: 3, Y: -2, Z: 1}), true},
 		{"Translate(-6,-5,-7)", func() sdf.M44 { return sdf.Translate3d(v3.Vec{X: -6, Y: -5, Z: -7}) }, trans4(v3.Vec{X: -6, Y: -5, Z: -7}), true},
@@ -507,6 +506,25 @@ func Unary33() []U33 {
 				}
 			})
 	}})
+	out = append(out, U33{"Orient3D[z to 3 directions]", "Orient3D", func(c N3) N3 {
+		base := v3.Vec{Z: 1}
+		dirs := v3.VecSet{{X: 1}, {X: 1, Y: 2, Z: 2}, {X: -1, Y: -1, Z: 0.5}}
+		var inv []m4
+		for _, d := range dirs {
+			inv = append(inv, rtv(base, d).inverse())
+		}
+		return wrap3(c, "Orient3D[z to (1,0,0),(1,2,2),(-1,-1,0.5)]", "Orient3D", RefValue, false, c.Lip,
+			func(s sdf.SDF3) (sdf.SDF3, error) { return sdf.Orient3D(s, base, dirs), nil },
+			func(f Ev3, _ sdf.SDF3) Ev3 {
+				return func(p v3.Vec) float64 {
+					d := math.Inf(1)
+					for _, m := range inv {
+						d = math.Min(d, f(m.apply(p)))
+					}
+					return d
+				}
+			})
+	}})
 	return out
 }
 
@@ -695,6 +713,21 @@ func Unary22() []U22 {
 				return func(p v2.Vec) float64 {
 					d := math.Inf(1)
 					for _, q := range pos {
+						d = math.Min(d, f(v2.Vec{X: p.X - q.X, Y: p.Y - q.Y}))
+					}
+					return d
+				}
+			})
+	}})
+	out = append(out, U22{"LineOf2D[xx.x]", "LineOf2D", func(c N2) N2 {
+		p0, p1 := v2.Vec{X: -3, Y: 2}, v2.Vec{X: 5, Y: -2}
+		return wrap2(c, "LineOf2D[(-3,2)-(5,-2) \"xx.x\"]", "LineOf2D", RefValue, false, c.Lip,
+			func(s sdf.SDF2) (sdf.SDF2, error) { return sdf.LineOf2D(s, p0, p1, "xx.x"), nil },
+			func(f Ev2, _ sdf.SDF2) Ev2 {
+				return func(p v2.Vec) float64 {
+					d := math.Inf(1)
+					for _, i := range []float64{0, 1, 3} {
+						q := v2.Vec{X: p0.X + (p1.X-p0.X)*i/4, Y: p0.Y + (p1.Y-p0.Y)*i/4}
 						d = math.Min(d, f(v2.Vec{X: p.X - q.X, Y: p.Y - q.Y}))
 					}
 					return d
